@@ -251,7 +251,10 @@ def run_case(case):
             got = perf.aggregate_returns(pd.Series(got_r, index=idx), per)
             gd = {(k if isinstance(k, tuple) else (k,)): float(v) for k, v in got.items()}
             tot = math.prod(1 + v for v in gd.values()) - 1
-            if not close(tot, o['total'], 1e-8, 1e-3):
+            # (a period return is stored as growth - 1: for a period that loses nearly everything the growth factor
+            # 1 + v is known only to eps / (1 + v), and re-compounding inherits that)
+            amp = sum(4e-16 / abs(1 + v) for v in gd.values() if v != -1.0)
+            if not (close(tot, o['total'], 1e-8, 1e-3) or abs((1 + tot) - (1 + o['total'])) <= (1e-9 + amp) * abs(1 + o['total'])):
                 raise Violation('%s aggregates compound to %r, the daily series to %r' % (per, tot, o['total']))
             if per in o['agg']:
                 exp = o['agg'][per]
